@@ -90,7 +90,7 @@ def runRedef (fl : Flags) (b : Block) : Res :=
     let ctx : Ctx := { env := sc.env, g := cgr.cg.g, funcOf := sc.funcOfKey bld.convs, beh := zeroBeh outCount,
                        memoCopy := fl.memoCopy, publishAfterUpdate := fl.publishAfterUpdate,
                        trackReaching := fl.trackReaching, takeValuedNamed := fl.takeValuedNamed,
-                       skipRecordsInput := fl.skipRecordsInput,
+                       skipRecordsInput := fl.skipRecordsInput, hopCopies := fl.hopCopies,
                        auto := rdres.head? == some "crash" }
     let o := redefine ctx cgr target fout (fuelFor sc) (initSt cgr.cg [] items) fl.dupIsError
     let c2 := if showRedef o = showImplRedef rdres then none
